@@ -53,6 +53,8 @@ SleeperExc == -3  \* "id" of the exception object raised by the sleeper
 BSleepExc == -4   \* "id" of the exception object raised by before_sleep
 
 CancelOuts == {"cancel", "kbd", "sysexit", "nested"}
+\* ways an attempt can end that M offers (the fault drivers add others: GeneratorExit, ...)
+ModelledOuts == {"ok", "exc", "excsame", "res", "abort"} \cup CancelOuts
 
 (***************************************************************************)
 (* Configuration c:                                                        *)
@@ -216,7 +218,7 @@ Invoke(c, s) ==
                         ViaEnd(c, [s1 EXCEPT !.abn = s.att, !.own = TRUE, !.absrc = "own"],
                                "aborted", "ABORTED", "-", None, "abortemit")
                   [] o.out \in CancelOuts -> [s1 EXCEPT !.pc = "deliver", !.dkind = "cancel"]>>
-          : o \in {x \in Outs : x.out = "res" => c.rc}, d \in Durs }
+          : o \in {x \in Outs : x.out \in ModelledOuts /\ (x.out = "res" => c.rc)}, d \in Durs }
     ELSE {}
 
 RClassify(c, s) ==
